@@ -141,6 +141,11 @@ func (r *Runner) Violate(prop, check, sig, format string, args ...interface{}) {
 	if r.Cond == nil {
 		r.Cond = map[string]bool{}
 	}
+	// the broken-state suffix describes what the history went through BEFORE this firing
+	derivedSfx := ""
+	if derivedCheck[prop+"/"+check] {
+		derivedSfx = r.brokenStateSuffix(policyStateCheck[prop+"/"+check])
+	}
 	r.Cond[prop+"/"+check] = true // remembered even when the property's reports are filtered out
 	if !r.Enabled(prop) {
 		return
@@ -152,7 +157,7 @@ func (r *Runner) Violate(prop, check, sig, format string, args ...interface{}) {
 	// already been through carry that state in their signature (the defects themselves -
 	// C05/pending after a failed request, C03 drained pool, ... - are reported without it).
 	if derivedCheck[prop+"/"+check] {
-		if sfx := r.brokenStateSuffix(policyStateCheck[prop+"/"+check]); sfx != "" && !strings.Contains(sig, ":after-") && !strings.HasPrefix(sig, "stale-pinning") {
+		if sfx := derivedSfx; sfx != "" && !strings.Contains(sig, ":after-") && !strings.HasPrefix(sig, "stale-pinning") {
 			sig += sfx
 		}
 	}
@@ -172,7 +177,7 @@ func (r *Runner) Violate(prop, check, sig, format string, args ...interface{}) {
 var derivedCheck = map[string]bool{
 	"C01/excl-in-other": true, "C01/outside-available": true, "C01/reserved-to-nonreserved": true, "C01/reserved-mixed": true, "C01/excl-overlap": false,
 	"C02/cpuset": true, "C02/cpuset-hidden-ht": true,
-	"C03/exclusive-count": true, "C03/grant-amount": true, "C03/shares": true,
+	"C03/exclusive-count": true, "C03/grant-amount": true, "C03/shares": true, "C03/empty-cpuset": true,
 	"C04/mems-vs-zone": true, "C04/fit-model": true,
 	"C05/update-dead": true, "C05/view-mismatch": true,
 	"C12/cpus-told": true, "C12/mems-told": true,
@@ -527,9 +532,18 @@ func (r *Runner) Do(s *Step) *Reply {
 			if err == nil {
 				r.Inst.Cfg = s.Cfg.Clone()
 				for _, c := range r.LiveCtrs() {
-					l := append(r.AllocCfg[c.Key], r.Inst.Cfg)
-					if len(l) > 6 {
-						l = append(l[:1], l[len(l)-5:]...)
+					// a grant that is re-instated verbatim can date from any configuration accepted since the container was
+					// allocated: keep them all (each distinct configuration once)
+					l, dup := r.AllocCfg[c.Key], false
+					nb, _ := json.Marshal([]interface{}{r.Inst.Cfg.TA, r.Inst.Cfg.Bln})
+					for _, o := range l {
+						if ob, _ := json.Marshal([]interface{}{o.TA, o.Bln}); string(ob) == string(nb) {
+							dup = true
+							break
+						}
+					}
+					if !dup {
+						l = append(l, r.Inst.Cfg)
 					}
 					r.AllocCfg[c.Key] = l
 				}
